@@ -31,17 +31,19 @@ class RecSigner(object):
         return b'PUB|%d' % self.idx
 
 
-def run_script(mode, sc, sess=None, seed=0):
+def run_script(mode, sc, sess=None, seed=0, stray_frames=None):
     """sc: dict(nkeys, need_auth, accept_at, pub_accept, bad_at, strays, md, cb, token_len) -> (trace, outcome, session)"""
     if sess is None:
         dev = simdev.SimDevice(seed=seed)
         sess = env.Session(mode, dev, log_io=True, banner=b'verif-host')
     dev = sess.dev
     first = len(dev.rec.events)
-    stray_frames = [wire.frame('OKAY', 5, 6), wire.frame('WRTE', 7, 8, b'stray'), wire.frame('CLSE', 9, 9)]
+    stray_list = [wire.frame('OKAY', 5, 6), wire.frame('WRTE', 7, 8, b'stray'), wire.frame('CLSE', 9, 9)]
     strays = {}
     for i, k in enumerate(sc.get('strays', [])):
-        strays[i] = [stray_frames[(i + j) % 3] for j in range(k)]
+        strays[i] = [stray_list[(i + j) % 3] for j in range(k)]
+    if stray_frames is not None:
+        strays = stray_frames
     tl = sc.get('token_len', 20)
     rng = random.Random(seed * 131 + 7)
     dev.auth = simdev.AuthPolicy(mode='auth' if sc['need_auth'] else 'open', maxdata=sc['md'], accept_sig=lambda i, sig, tok: sc['accept_at'] == i + 1,
@@ -122,8 +124,71 @@ def scripts(maxkeys, quick):
     return out
 
 
+def replay_rows(ctx, rng):
+    """spec->code: every completed connect() of the design spec (configuration + what the device put on the wire, as enumerated by
+    TLC) is replayed on the real code; outcome, number of signatures, public-key offers, callback calls, .available, chunk size compared."""
+    import os
+    import shutil
+    from .. import wire
+    wd = tlc.workdir('authrows')
+    try:
+        with open(os.path.join(wd, 'MCAuthRows.tla'), 'w') as f:
+            f.write(tlc.mc_module('MCAuthRows', 'AdbAuth', dict(MC_MDs=tlc.Raw('{<<0,4096>>, <<16,0>>, <<0,1>>}'))))
+        cfg = tlc.cfg_text(constants={'MaxKeys': '2' if ctx.quick else '3', 'MaxStray': '1', 'MDs': '<- MC_MDs', 'Connects': '1'},
+                           invariants=['AuthOK', 'AvailIffOk', 'SuccessWhenAccepted', 'EndRow'], deadlock=True)
+        r = tlc.cached_run('MCAuthRows', cfg, tags=('END',), depends=('AdbAuth', 'AuthMon', 'AdbWords'), module_dir=wd, extra_key='rows')
+    finally:
+        shutil.rmtree(wd, ignore_errors=True)
+    if r.violations:
+        raise tlc.TlcError('AdbAuth (rows) violates %s' % r.violations[0]['name'])
+    ctx.add_tlc(r, 'AdbAuth single connect, terminal rows for replay')
+    seen = {}
+    for row in tlc.printed(r, 'END'):
+        seen[json_key(row)] = row
+    rows = list(seen.values())
+    if ctx.quick:
+        rng.shuffle(rows)
+        rows = rows[:1500]
+    frames = {'OKAY': wire.frame('OKAY', 5, 6), 'WRTE': wire.frame('WRTE', 7, 8, b'stray'), 'CLSE': wire.frame('CLSE', 9, 9)}
+    mism = 0
+    for k, row in enumerate(rows):
+        c = row['cfg']
+        # strays per answer index, from the order in which the device wrote
+        strays, cur, idx = {}, [], 0
+        for h_ in row['hist']:
+            if h_ == 'ans':
+                strays[idx] = cur
+                cur, idx = [], idx + 1
+            else:
+                cur.append(frames[h_])
+        if cur:
+            strays[idx] = cur            # strays after which the device fell silent
+        md = wire.unlimbs(c['md'])
+        sc = dict(nkeys=c['nkeys'], need_auth=c['needAuth'], accept_at=c['acceptAt'], pub_accept=c['pubAccept'], bad_at=c['badAt'], strays=[], md=md, cb=c['cb'])
+        mode = ('sync', 'async')[k % 2]
+        tr, o, sess = run_script(mode, sc, seed=k, stray_frames=strays)
+        sess.close_loop()
+        got = dict(outcome='ok' if o.kind == 'ret' else o.exc_name, sigs=sum(1 for e in tr if e.get('kind') == 'SIG'), pub=sum(1 for e in tr if e.get('kind') == 'PUB'),
+                   cb=sum(1 for e in tr if e['ev'] == 'cb'), avail=bool(sess.device.available), chunk=int(sess.device.max_chunk_size) if o.kind == 'ret' else row['chunk'])
+        want = dict(outcome=row['outcome'], sigs=row['sigs'], pub=row['pub'], cb=row['cb'], avail=row['avail'], chunk=row['chunk'])
+        if want['outcome'] == 'AdbTimeoutError' and got['outcome'] in ('SimTimeout', 'AdbTimeoutError'):
+            got['outcome'] = 'AdbTimeoutError'         # the transport's own timeout error stands for the model's timeout
+        if got != want:
+            mism += 1
+            if mism <= 3:
+                ctx.design_drift('AdbAuth row %s: real %s, model %s' % ({kk: c[kk] for kk in ('nkeys', 'needAuth', 'acceptAt', 'pubAccept', 'badAt', 'cb')}, got, want))
+    ctx.count(evaluations=len(rows), distinct=len(rows))
+    ctx.extra['design_conformance'] = dict(rows_replayed=len(rows), mismatches=mism)
+
+
+def json_key(row):
+    import json
+    return json.dumps(row, sort_keys=True)
+
+
 def body(ctx):
     rng = random.Random(ctx.seed)
+    replay_rows(ctx, rng)
     # 1. design
     wd = tlc.workdir('auth')
     import os
@@ -132,7 +197,7 @@ def body(ctx):
         with open(os.path.join(wd, 'MCAuth.tla'), 'w') as f:
             f.write(tlc.mc_module('MCAuth', 'AdbAuth', dict(MC_MDs=tlc.Raw('{<<0,4096>>, <<16,0>>, <<0,1>>, <<65535,65535>>}'))))
         cfg = tlc.cfg_text(constants={'MaxKeys': '2' if ctx.quick else '3', 'MaxStray': '1' if ctx.quick else '2', 'MDs': '<- MC_MDs', 'Connects': '2'},
-                           invariants=['AuthOK', 'AvailIffOk', 'SuccessWhenAccepted'], deadlock=True)
+                           invariants=['AuthOK', 'AvailIffOk', 'SuccessWhenAccepted'], deadlock=True, view='ViewNoHist')
         r = tlc.run('MCAuth', cfg, wd=wd, module_dir=wd, coverage=True, timeout=3000)
     finally:
         shutil.rmtree(wd, ignore_errors=True)
